@@ -163,6 +163,9 @@ func (e *Engine) ghostFieldsOf(structName string) []*GhostField {
 
 // typeByName resolves a type written in a contract: basic names, package
 // types, *T, []T.
+// strMapLen marks the ghost array type used for strmapof:T (indexed by string).
+const strMapLen = 1 << 61
+
 func (e *Engine) typeByName(s string) types.Type {
 	s = strings.TrimSpace(s)
 	if strings.HasPrefix(s, "*") {
@@ -170,6 +173,10 @@ func (e *Engine) typeByName(s string) types.Type {
 	}
 	if strings.HasPrefix(s, "[]") {
 		return types.NewSlice(e.typeByName(s[2:]))
+	}
+	if strings.HasPrefix(s, "strmapof:") {
+		// ghost total map keyed by string (value semantics)
+		return types.NewArray(e.typeByName(s[9:]), strMapLen)
 	}
 	if strings.HasPrefix(s, "seqof:") {
 		// ghost sequence: an unbounded array indexed by int
